@@ -9,9 +9,9 @@
    every pixel painted, none outside, <= 256 registers; if the source has <= 256
    distinct colours at 0..100 resolution the picture equals the source at that
    resolution; a repeated draw is byte-identical to the first. *)
-From Coq Require Import List NArith Bool.
+From Coq Require Import List NArith Bool FMapPositive.
 From SNT Require Export Base.Report Base.Outcome Image.KDTree Image.Octree Image.Quantize Image.Sixel
-     Image.SixelDraw Gen.TabSixel.
+     Image.SixelDraw Image.SixelCache Image.SrgbSpec Gen.TabSixel.
 Import ListNotations.
 Local Open Scope N_scope.
 
@@ -48,11 +48,44 @@ Definition first_draw_agrees (rows : list (list spx)) (impl : list N) : bool :=
   img_rect rows &&
   match quantize (sixel_eff rows) sixel_palette_size sixel_dither with
   | Ok (pal, q) =>
+      (* = sixel_draw rows (observed_orders impl), without quantising a second time *)
       orders_ok q (observed_orders impl) &&
-      match model_bytes rows impl with Ok m => nlist_eqb m impl | _ => false end
+      match sixel_encode pal q (N.to_nat (img_width (sixel_eff rows))) (observed_orders impl) with
+      | Ok m => nlist_eqb m impl
+      | _ => false
+      end
   | Err _ => match impl with [] => true | _ => false end
   | _ => false
   end.
+
+Fixpoint list_eqb2_opt {A B} (f : A -> B -> bool) (x : list A) (y : list B) : bool :=
+  match x, y with
+  | [], [] => true
+  | a :: x', b :: y' => f a b && list_eqb2_opt f x' y'
+  | _, _ => false
+  end.
+
+(* picture_ok / picture_eq of Image/Sixel.v evaluated through a finite map from pixel number
+   (y * w + x) to the newest colour painted there: the same predicates, computed in
+   O(n log n) so that pictures of 50k pixels can be checked *)
+Definition pix_key (w x y : N) : positive := N.succ_pos (y * w + x).
+
+Definition pix_map (w : N) (evs : list (N * N * rgb)) : PositiveMap.t rgb :=
+  fold_left (fun m e => let '(x, y, v) := e in PositiveMap.add (pix_key w x y) v m) (rev_append evs [])
+            (PositiveMap.empty rgb).
+
+Definition picture_ok_fast (w h : N) (p : picture) : bool :=
+  (p_width p =? w) && (p_height p =? h) &&
+  forallb (ev_in w h) (p_events p) &&
+  (let m := pix_map w (p_events p) in
+   forallb (fun i => PositiveMap.mem (N.succ_pos i) m) (nrange_from 0 (N.to_nat (w * h)))) &&
+  regs_ok (p_regs p).
+
+Definition picture_eq_fast (w : N) (expected : list (list rgb)) (p : picture) : bool :=
+  let m := pix_map w (p_events p) in
+  list_eqb2_opt (fun (i : N) (v : rgb) =>
+                   match PositiveMap.find (N.succ_pos i) m with Some u => rgb_eqb u v | None => false end)
+                (nrange_from 0 (length (concat expected))) (concat expected).
 
 Definition first_draw_holds (rows : list (list spx)) (impl : list N) : bool :=
   let r6 := rows6 rows in
@@ -63,36 +96,79 @@ Definition first_draw_holds (rows : list (list spx)) (impl : list N) : bool :=
     match sixel_decode impl with
     | None => false
     | Some p =>
-        picture_ok w h p &&
-        (negb ((distinct100 rows <=? 256) && (sample_of (sixel_eff rows) 256 <? 2)) ||
-         picture_eq (sixel_src100 rows) p)
+        picture_ok_fast w h p &&
+        (if (if sample_of (sixel_eff rows) 256 <? 2 then distinct100 rows <=? 256 else false)
+         then picture_eq_fast w (sixel_src100 rows) p else true)
     end.
 
-Fixpoint cache_get (k : nat) (c : list (nat * list N)) : option (list N) :=
-  match c with
-  | [] => None
-  | (k2, v) :: r => if Nat.eqb k k2 then Some v else cache_get k r
+(* ---------- cropped views ---------- *)
+
+Definition spx_eqb (a b : spx) : bool :=
+  match a, b with
+  | Opaque c, Opaque d => rgb_eqb c d
+  | Transp c x bl, Transp d y bm => rgb_eqb c d && (x =? y) && rgb_eqb bl bm
+  | _, _ => false
   end.
 
-Fixpoint run_draws (imgs : list (list (list spx))) (cache : list (nat * list N))
+Definition rows_eqb : list (list spx) -> list (list spx) -> bool := list_eqb (list_eqb spx_eqb).
+
+(* specification side: what was written for a picture of the same content before *)
+Fixpoint drawn_before (rows : list (list spx)) (seen : list (list (list spx) * list N)) : option (list N) :=
+  match seen with
+  | [] => None
+  | (r, b) :: rest => if rows_eqb r rows then Some b else drawn_before rows rest
+  end.
+
+(* one handler.  Model side: the handler's cache as modelled in Image/SixelCache.v (LRU list,
+   eviction above the regenerated IMAGE_CACHE_SIZE), keyed by the content hash the harness
+   observed for each image (Surface::hash): a hit must return the cached bytes, a miss must
+   be the encoding of the view under the observed strip order.  Specification side: EVERY
+   draw must decode to the view it was given, and a draw of a view whose content was drawn
+   before must repeat those bytes. *)
+Fixpoint run_draws (imgs : list (list (list spx) * N)) (st : hstate)
+         (seen : list (list (list spx) * list N))
          (draws : list (nat * list N)) : bool * bool :=
   match draws with
   | [] => (true, true)
   | (k, impl) :: r =>
-      let '(a, h) :=
-        match cache_get k cache with
-        | Some bytes => (nlist_eqb bytes impl, nlist_eqb bytes impl)
-        | None =>
-            let rows := nth k imgs [] in
-            (first_draw_agrees rows impl, first_draw_holds rows impl)
+      let '(rows, key) := nth k imgs ([], 0) in
+      let a :=
+        match c_find key (fst st) with
+        | Some bytes => nlist_eqb bytes impl
+        | None => first_draw_agrees rows impl
         end in
-      let '(a', h') := run_draws imgs ((k, impl) :: cache) r in
+      let st' := snd (hdraw sixel_cache_limit st key (match impl with [] => None | _ => Some impl end)) in
+      let h :=
+        match drawn_before rows seen with
+        | Some bytes => nlist_eqb bytes impl       (* the same bytes were decoded and checked for this content *)
+        | None => first_draw_holds rows impl
+        end in
+      let '(a', h') := run_draws imgs st' ((rows, impl) :: seen) r in
       (a && a', h && h')
   end.
 
-Inductive c12_case := SIX (imgs : list (list (list spx))) (draws : list (nat * list N)).
+(* the compositing oracle values (rasterize blend_over, supplied by the harness) are bounded
+   against the exact linear-light mix of Image/SrgbSpec.v *)
+Definition px_blend_ok (bg : N * N * N * N) (p : spx) : bool :=
+  match p with
+  | Opaque _ => true
+  | Transp c a bl => blend_ok bg c a bl
+  end.
+
+Definition parents_blend_ok (bg : N * N * N * N) (parents : list (list (list spx))) : bool :=
+  forallb (forallb (forallb (px_blend_ok bg))) parents.
+
+Inductive c12_case :=
+  SIX (bg : N * N * N * N)            (* the handler's background (black, opaque when not configured) *)
+      (parents : list (list (list spx)))
+      (imgs : list (nat * option (nat * nat * nat * nat) * N))  (* parent number, crop, observed content hash *)
+      (draws : list (nat * list N)).
 
 Definition c12_check (c : c12_case) : bool * bool :=
-  match c with SIX imgs draws => run_draws imgs [] draws end.
+  match c with
+  | SIX bg parents imgs draws =>
+      let '(a, h) := run_draws (map (fun i => (view_rows (nth (fst (fst i)) parents []) (snd (fst i)), snd i)) imgs) ([], 0) [] draws in
+      (a, h && parents_blend_ok bg parents)
+  end.
 
 Definition c12_report := report c12_check.
